@@ -13,6 +13,15 @@ LEVEL_TEXT = ("Static analysis of /repo's current source (go/packages + go/ssa, 
 
 # id -> (technique, what is decided, design_ref)
 CLAIMED = {
+    "C14": ("belief-contradiction rule over all peek() sites, dominance (due edge), must-pass-through with infeasible-edge pruning (timer re-arm), provenance of the due time, exact linear form of the router cut-off, FIFO shape of the queue",
+            "peek results guarded before use; pop/forward only when due; one forward per pop of the wrapped chunk; due time = Now()+delay at arrival; only timedChunk pushed; timer re-armed on every path after tick/Stop; router pops only when timestamp <= now-minDelay and stamps at enqueue; FIFO queue",
+            "DESIGN.md section 3 C14"),
+    "C15": ("effects on the token counter (cap shape), who-may-forward, dominance of the tokens>=size test, per-iteration path counting pairing pop/decrement/forward, call-graph single consumer, FIFO shape",
+            "token stores capped by min(maxBurst,.) or decreasing; refill clips on every path; one forwarding site guarded by tokens>=size of the peeked head, paired with one pop and one decrement; no pop without forward; arriving chunk always offered to the queue; single consumer; FIFO queue",
+            "DESIGN.md section 3 C15"),
+    "C16": ("shape + decision-structure truth table over linear atoms for the drop test, path counting of draw and forward, effects",
+            "one rand.Intn(100) per datagram; drop iff draw < chance on the int chance stored unchanged; at most one forward of the received chunk; no other effect",
+            "DESIGN.md section 3 C16"),
     "C10": ("sibling rule over all owners of SetReadDeadline (discovered by method set), must-pass-through, select-structure rules (pre-check and Done() case), value analysis of timeout-class errors, plus the Deadline typestate rules",
             "every owner arms a level-triggered deadline.Deadline (or delegates to one it reads from) with its argument; no one-shot timer channel on any read path; non-blocking pre-check dominates every blocking wait, which has a Done() case; Done() branches return timeout-class errors and nothing else does; Deadline bookkeeping",
             "DESIGN.md section 3 C10"),
